@@ -11,6 +11,7 @@ from . import rules_build as B
 from . import rules_runtime as R
 from . import rules_template as TP
 from . import rules_iter as IT
+from . import rules_lexer2 as L2
 
 RULES = {
     "T1": T.rule_T1,
@@ -20,6 +21,7 @@ RULES = {
     "T5": E.rule_T5,
     "T6": T.rule_T6,
     "T13": T.rule_T13,
+    "G6": T.rule_G6,
     "T14": S.rule_T14,
     "T15": IT.rule_T15,
     "N4": T.rule_N4,
@@ -36,12 +38,16 @@ RULES = {
     "T9p": TP.rule_T9p,
     "A3": L.rule_A3,
     "A8": L.rule_A8,
+    "A7": L2.rule_A7,
+    "A9": L2.rule_A9,
     "D1": U.rule_D1,
     "D2": U.rule_D2,
     "D3": S.rule_D3,
     "D4": B.rule_D4,
     "D5": U.rule_D5,
     "D7": B.rule_D7,
+    "G5": B.rule_G5,
+    "A10": B.rule_A10,
     "W1": S.rule_W1,
     "W2": S.rule_W2,
     "W3": S.rule_W3,
@@ -78,12 +84,15 @@ PROPS = {
         "value is compared with node indices when the parent chain is walked, so a depth lets an operator escape its brackets).",
     },
     "C03": {
-        "rules": ["G2c", "G1c"],
+        "rules": ["G2c", "G1c", "G5", "G6"],
         "claim": "Decides the no-panic and no-recursion clauses of C03 over everything reachable from lex / Lexer::next / parse / build "
         "(including the data-impl methods build calls, closed over trait dispatch into both shipped impls): every panic-capable site "
         "(explicit panic/unwrap/unreachable, MIR bounds/overflow/div asserts, Index impls, enumerated std panickers, generic Size "
         "subtraction) is either absent or in the reviewed allow-list with the reason it cannot fire, and the reachable call graph is "
-        "acyclic. Termination and running time are not decided (`5 ;; 6` makes parse return a cyclic tree on which build does not terminate).",
+        "acyclic; and the two termination arguments the pipeline's own loops rest on: (G5) before emitting anything build() walks the left/right links from "
+        "the root, marks visited nodes and rejects a node met twice - a shared node or a cycle (parse returns one for `5 + + 3`) would make its work-stack "
+        "walk re-schedule nodes for ever; (G6) every parser loop that follows parent links counts its iterations and gives up once the count exceeds the "
+        "node count. Termination of the remaining loops and running time are value-dependent and not decided.",
     },
     "C07": {
         "rules": ["G2r", "G1r"],
@@ -93,13 +102,19 @@ PROPS = {
         "reachability of an allow-listed site is by review, stated per site in allow/panic_sites.json.",
     },
     "C13": {
-        "rules": ["A3", "T2", "A8"],
-        "claim": "Decides three clauses of C13: (A3) a character that cannot start or continue a token makes lex fail - the lexer's error "
+        "rules": ["A3", "T2", "A8", "A7", "A9"],
+        "claim": "Decides five clauses of C13: (A3) a character that cannot start or continue a token makes lex fail - the lexer's error "
         "slot, once set, is never assigned a possibly-Ok value and no further character is consumed while it is set (path-sensitive "
         "typestate over the MIR of every Lexer method); (T2, first hop) the operator table is the language's 60 spellings; (A8) operators are classified by the trie node their "
         "whole text reaches: on the Some(node) edge of every trie step every path stores that node's own type - including none, which is what "
-        "rejects a bare prefix such as `>.` - into the lexer's token type (must-pass-through on the MIR CFG). "
-        "Losslessness, positions and the character-level longest match are value-dependent and not decided.",
+        "rejects a bare prefix such as `>.` - into the lexer's token type (must-pass-through on the MIR CFG); (A7) nothing is skipped or doubled: "
+        "the character consumer is interpreted abstractly once per (lexing state, character class) - 13 states x every character literal the lexer "
+        "compares with, one representative of the operator alphabet and of each std class it asks about, buffer content and counters left abstract - "
+        "and on every path that records no error the consumed character is part of exactly one token text (pushed once and kept, or emitted once; never "
+        "discarded by a buffer reset; the one-shot skip flag is back at rest), which is the inductive step of 'token texts concatenated reproduce the "
+        "input'; (A9) positions: in every state the line feed advances the row counter exactly once and not the column, every other character (CR/FF, "
+        "left open by the property, excepted) the column exactly once and not the row. Token start positions, longest match beyond the trie step and "
+        "blank-line grouping are value-dependent and not decided.",
     },
     "C14": {
         "rules": ["D1", "D5", "W2"],
@@ -150,14 +165,16 @@ PROPS = {
         "store primitives rewrite cells (W1). Structural identity after compaction is not decided.",
     },
     "C04": {
-        "rules": ["T10", "A2"],
+        "rules": ["T10", "A2", "G5"],
         "claim": "Decides the attribution clause of C04, not the tree shape: every one of the 69 Definition handlers (except the reviewed "
         "Group / ElseJump / Drop) records at least one instruction with Some(index of the node it handles), and on every path through "
-        "the builder each emitted instruction gets exactly one metadata record (so an attribution can be neither lost nor doubled). "
-        "That parse returns a proper binary tree covering every token is not decided.",
+        "the builder each emitted instruction gets exactly one metadata record (so an attribution can be neither lost nor doubled); and the 'no node is "
+        "shared or lies on a cycle' clause for everything build accepts: build() itself walks the links from the root, marks visited nodes and returns Err "
+        "for a node reached twice before it emits anything (G5). That the in-order walk of the accepted tree is the token stream is value-dependent parser "
+        "bookkeeping and is not decided.",
     },
     "C05": {
-        "rules": ["A2", "D4", "T1", "T11", "D7"],
+        "rules": ["A2", "D4", "T1", "T11", "D7", "A10"],
         "claim": "Decides three clauses of C05: exactly one metadata record per emitted instruction on every builder path (A2, path-sensitive "
         "typestate); operands have the kind their instruction's reader expects and come from the data object's own tables - jump "
         "operands and expression values from get_jump_table_len(), data operands from add_*/parse_add_*, list counts from the child "
@@ -166,7 +183,9 @@ PROPS = {
         "root's end instructions has no early exit and skips an entry only when the identical (instruction, operand) pair is already "
         "the last one, so the re-joining JumpTo / EndExpression is always emitted (T11); and a conditional's placeholder is only ever registered with a parent that "
         "patches it: a node's conditional_parent is handed on to another node only by the handler that schedules conditional_items - the else-chain - "
-        "never by a group or operator in between (D7). Root-stack exhaustion depends on program shape and is not decided.",
+        "never by a group or operator in between (D7); an entry is registered before the code it names: on every path through build() a jump-table "
+        "registration precedes the first emitting call (A10, must-pass-through on the MIR CFG), so an entry cannot be get_instruction_len() taken after the "
+        "instruction it should point at. Root-stack exhaustion depends on program shape and is not decided.",
     },
     "C20": {
         "rules": ["D4", "W1", "W3"],
@@ -179,7 +198,7 @@ PROPS = {
         "as when built alone is not decided.",
     },
     "C06": {
-        "rules": ["A1", "A6", "D6"],
+        "rules": ["A1", "A6", "D6", "T8"],
         "claim": "Decides the per-instruction clause of C06: on every Ok-returning path of each of the 55 instruction functions "
         "(path-partitioned abstract interpretation of their MIR against the GarnishData contract, callees summarised bottom-up) the "
         "operand-stack, value-stack and frame deltas and the jump result are the fixed constants of spec/arity.json - binary -2+1, "
@@ -190,7 +209,9 @@ PROPS = {
         "reapply), both arms of a conditional / logical operator join at the same depth, and the `$` stack is unchanged; space and "
         "comma lists (n-ary) and the bare `;;` are excluded. (D6) the call-frame chain: the Frame* cell BasicGarnishData::push_frame writes for "
         "each (current frame, current register) state is decoded by pop_frame into the same state, variant by variant (writer/reader "
-        "tables extracted from both matches), so a popped frame returns to its parent. The dynamic depth of whole programs is not decided.",
+        "tables extracted from both matches), so a popped frame returns to its parent; and that chain survives a compaction in the middle of a call: the copy pass of optimize() rebuilds every "
+        "cell as the variant it matched (T8: a FrameRegister is not written back as a FrameIndex), with the reference fields the tracing pass followed. "
+        "The dynamic depth of whole programs is not decided.",
     },
     "C08": {
         "rules": ["A4", "A5", "A1", "G3", "T2"],
@@ -242,7 +263,7 @@ PROPS = {
 TECHNIQUE = {
     "C01": "dispatch-table extraction from resolved HIR (5 composed tables vs a semantic operator spec), exhaustiveness of dispatch matches",
     "C02": "priority-map extraction from HIR compared as an ordered partition against the operator table; associativity classes",
-    "C03": "resolved whole-workspace call graph (trait dispatch into both data impls) + MIR panic-site inventory (asserts, Index impls, unwrap/panic macros, std panickers) against a reviewed per-function allow-list; SCC check for recursion",
+    "C03": "resolved whole-workspace call graph (trait dispatch into both data impls) + MIR panic-site inventory (asserts, Index impls, unwrap/panic macros, std panickers) against a reviewed per-function allow-list; SCC check for recursion; structural termination arguments: visited-set validation walk in build(), iteration caps of the parser's parent-chain loops",
     "C07": "same call-graph reachability + MIR panic-site inventory over the runtime entry set; SCC check with a depth-bound allow-list",
     "C13": "path-partitioned abstract interpretation of the Lexer methods' MIR with a typestate on the error slot (assume-guarantee between methods); operator table extraction; must-pass-through check on the MIR CFG after every trie step (token type follows the reached node)",
     "C14": "origin (def-use) analysis over resolved HIR: byte-length sources vs character-count sinks; cast scan of the literal parsers; accumulator typestate over the literal parsers' MIR; lossy-encoding scan of the Hash impls inside the intern key",
